@@ -436,3 +436,16 @@ vf_finish(void)
 	}
 	return SH->violtotal ? 1 : 0;
 }
+
+#ifdef VF_COVERAGE
+/* coverage builds only (lib/coverage.sh): processes that leave through _exit() still write their profile */
+#include <sys/syscall.h>
+extern int __llvm_profile_write_file(void) __attribute__((weak));
+void
+_exit(int rc)
+{
+	if (__llvm_profile_write_file) __llvm_profile_write_file();
+	syscall(SYS_exit_group, rc);
+	for (;;) ;
+}
+#endif
